@@ -128,6 +128,13 @@ def programs(tier):
         fa, fb, fc = F[a], F[b], F[cc]
         P.append(('nested-call/%d/%d/%d' % (a, b, cc), pre + 'char *g1; char *g2; char *g3;\nchar g(char *x) { g2 = x; return 1; }\nvoid f(char *p, char q, char *r) { g1 = p; g3 = r; }\nvoid main() { f("%s", g("%s"), ("%s")); }\n' % (fa, fb, fc),
                   [('cctmp0', ref_decode(fa) + [0]), ('cctmp1', ref_decode(fb) + [0]), ('cctmp2', ref_decode(fc) + [0])]))
+    # literals inside the initialiser of a local variable (its own expression parser): parenthesised, in ?: alternatives, in nested calls
+    for a, b, cc in itertools.product(range(0, len(F), 4), range(1, len(F), 5), range(2, len(F), 11)):
+        fa, fb, fc = F[a], F[b], F[cc]
+        P.append(('local-init-tern/%d/%d' % (a, b), pre + 'char k; char *gp;\nvoid main() { char *q = k ? ("%s") : "%s"; gp = q; }\n' % (fa, fb), [('cctmp0', ref_decode(fa) + [0]), ('cctmp1', ref_decode(fb) + [0])]))
+        P.append(('local-init-call/%d/%d/%d' % (a, b, cc), pre + 'char *g1; char *g2; char *g3; char r;\nchar g(char *x) { g2 = x; return 1; }\nchar pick(char *p, char q, char *s) { g1 = p; g3 = s; return q; }\n'
+                  'void main() { char c = pick(("%s"), g("%s"), "%s"); r = c; }\n' % (fa, fb, fc), [('cctmp0', ref_decode(fa) + [0]), ('cctmp1', ref_decode(fb) + [0]), ('cctmp2', ref_decode(fc) + [0])]))
+        P.append(('local-init-two-decls/%d/%d' % (a, b), pre + 'char *g1; char *g2;\nvoid main() { char *p = ("%s"); char *q = "%s"; g1 = p; g2 = q; }\n' % (fa, fb), [('cctmp0', ref_decode(fa) + [0]), ('cctmp1', ref_decode(fb) + [0])]))
     # character constants
     for ch, code in [('a', 97), (' ', 32), ('\\n', 10), ('\\t', 9), ('\\0', 0), ('\\\\', 92), ("\\'", 39), ('"', 34), ('/', 47), ('*', 42), ('#', 35), ('\\f', 12), ('\\v', 11), ('\\a', 7), ('\\b', 8), ('\\r', 13), ('@', 64)]:
         P.append(('char/%s' % ch, "const char k = '%s';\nvoid main() {}\n" % ch, [('k', 'Value(Int(%d))' % code)]))
